@@ -31,6 +31,7 @@ PYVC_MODULES = [
     "contracts.linalg_fermi",
     "contracts.fermi_contract",
     "contracts.abelian_ops",
+    "contracts.alignment",
 ]
 
 BASE = [A_BUILTINS, A_INT, A_TERM, A_NUMPY, A_BOUNDED, A_USER]
